@@ -396,6 +396,73 @@ def r17_4(ctx, prog, crate):
         ctx.check(ok, "R17.4", ["bench", "zst-closure-check"], "mem::zeroed::<B>() is not preceded by the size_of::<B>() == 0 assertion", bn.where(0))
 
 
+def _uses_statics(body):
+    """static items a body refers to (by constant operand)"""
+    out = set()
+
+    def scan(o):
+        if isinstance(o, dict):
+            if o.get("k") == "const" and isinstance(o.get("c"), dict) and o["c"].get("static"):
+                out.add(norm(o["c"]["static"]))
+            for v in o.values():
+                scan(v)
+        elif isinstance(o, list):
+            for v in o:
+                scan(v)
+    for bl in body.blocks:
+        scan(bl["stmts"])
+        scan(bl["term"])
+    return out
+
+
+def r17_6(ctx, prog, crate):
+    """A const-generic row is labelled with the rendering of ITS OWN constant: EntryConst::name fills the entry's own cell
+    from (self.to_string)(self.value) and from nothing shared between entries (no static, no map keyed by address - equal
+    bytes at one address may be constants of different types); EntryConst::new stores the value it is given and the
+    to_string instantiation of its type."""
+    nb = prog.body("entry::generic::EntryConst::name", crate)
+    if not ctx.anchor("R17.6", "EntryConst::name", 1 if nb else 0, 1):
+        return
+    ctx.saw(nb)
+    tree = prog.closure_tree(nb)
+    st = sorted({x for y in tree for x in _uses_statics(y)})
+    ctx.check(not st, "R17.6", ["EntryConst::name", "no-shared-state"] + st, "the label of a constant is looked up / cached in shared state %s" % st, nb.where(0))
+    goi = [c for c in nb.live_calls() if c.callee.endswith("OnceLock::get_or_init")]
+    if ctx.check(len(goi) == 1, "R17.6", ["EntryConst::name", "own-cell"], "get_or_init sites: %d" % len(goi), nb.where(0)):
+        lab = {z.label() for z in nb.prov.op_src(goi[0].args[0]) if z.kind in ("param", "static", "upvar")}
+        ctx.check(lab == {"param:self.cached_string"}, "R17.6", ["EntryConst::name", "own-cell", "receiver"], "the cache cell is %s" % sorted(lab), goi[0].line())
+        ret = origins(nb, {"k": "move", "p": {"l": 0, "proj": [], "ty": ""}})
+        ctx.check(bool(ret) and all(o[0] == "call" and o[1].bb == goi[0].bb for o in ret), "R17.6", ["EntryConst::name", "returns-the-cell"], "name() does not return the cell's content", nb.where(0))
+    cl = [x for x in tree if x.kind == "Closure"]
+    if ctx.check(len(cl) == 1, "R17.6", ["EntryConst::name", "init-closure"], "closures: %d" % len(cl), nb.where(0)):
+        x = cl[0]
+        ctx.saw(x)
+        ind = [c for c in x.live_calls() if c.decl is None]
+        ok = len(ind) == 1
+        if ok:
+            f = {z.label() for z in x.prov.op_src(ind[0].func)}
+            a = {z.label() for z in x.prov.op_src(ind[0].args[0])} if ind[0].args else set()
+            ok = any(l.endswith(".to_string") for l in f) and all(l.startswith("upvar:") for l in f) and \
+                any(l.endswith(".value") for l in a) and all(l.startswith("upvar:") for l in a)
+        ctx.check(ok, "R17.6", ["EntryConst::name", "renders-own-value"], "the label is not (self.to_string)(self.value)", x.where(0))
+        others = sorted({c.callee for c in x.live_calls() if c.decl is not None and not c.callee.endswith(("into_boxed_str", "Box::leak", "Deref>::deref", "::deref"))})
+        ctx.check(not others, "R17.6", ["EntryConst::name", "nothing-else"] + others, "the initialiser also calls %s" % others, x.where(0))
+    cb = prog.body("entry::generic::EntryConst::new", crate)
+    if ctx.anchor("R17.6", "EntryConst::new", 1 if cb else 0, 1):
+        aggs = [s for bi, si, s in cb.stmts(live_only=False) if s["k"] == "assign" and s["rv"]["k"] == "agg" and s["rv"]["ak"] == "adt" and norm(s["rv"]["adt"]).endswith("EntryConst")]
+        if ctx.check(len(aggs) == 1, "R17.6", ["EntryConst::new", "aggregate"], "aggregates: %d" % len(aggs), cb.where(0)):
+            rv = aggs[0]["rv"]
+            v = {z.label() for z in cb.prov.op_src(rv["ops"][rv["fields"].index("value")]) if z.kind in ("param", "const", "static")}
+            ctx.check(v == {"param:" + cb.param_name(1)}, "R17.6", ["EntryConst::new", "stores-its-argument"], "value is %s" % sorted(v), cb.where(0))
+            ts = {z.a for z in cb.prov.op_src(rv["ops"][rv["fields"].index("to_string")]) if z.kind == "fnitem"}
+            ctx.check(len(ts) == 1 and list(ts)[0].endswith("EntryConst::new::to_string"), "R17.6", ["EntryConst::new", "own-types-to_string"], "to_string is %s" % sorted(ts), cb.where(0))
+    tb = prog.body("entry::generic::EntryConst::new::to_string", crate)
+    if ctx.anchor("R17.6", "EntryConst::new::to_string", 1 if tb else 0, 1):
+        cs = [c for c in tb.live_calls() if c.callee.endswith("ToString::to_string") or c.callee.endswith("to_string")]
+        ok = len(cs) == 1 and {z.label() for z in tb.prov.op_src(cs[0].args[0]) if z.kind == "param"} == {"param:" + tb.param_name(1)} and cs[0].dest["l"] == 0
+        ctx.check(ok, "R17.6", ["EntryConst::new::to_string", "T::to_string-of-the-value"], "the erased to_string is not T::to_string(&*value.cast())", tb.where(0))
+
+
 MACRO_SIDE = {"args-runner", "shared-args", "one-__DIVAN_ARGS", "no-__DIVAN_ARGS", "args-expression", "own-type-in-own-position",
               "own-const-in-own-position", "instantiation-arity", "each-combination-once", "covers-the-whole-product",
               "const_value-indexes-__DIVAN_CONSTS", "ty-names-a-listed-type", "runner-kind", "runs-own-function", "consts-as-written", "product-size"}
@@ -419,6 +486,7 @@ def run_extra(ctx):
 
 
 def run(ctx, prog, crate):
+    r17_6(ctx, prog, crate)
     r17_1(ctx, prog, crate)
     r17_2(ctx, prog, crate)
     r17_3(ctx, prog, crate)
